@@ -76,6 +76,7 @@ type predicate struct {
 	// what the classifier learnt on the way (R2)
 	helpers map[string]*ast.CallExpr // list field -> call of the matching helper
 	root    ast.Node                 // body of the literal being classified
+	folded  map[string]bool          // command names tested case-insensitively
 	r2      map[string]func()
 }
 
@@ -84,7 +85,7 @@ func newPredicate(c *core.Ctx, name string) *predicate {
 	if fn == nil {
 		return nil
 	}
-	p := &predicate{c: c, fn: fn, info: fn.Pkg.TypesInfo, x: tt.New(cfgq.Of(c.Program, fn)), helpers: map[string]*ast.CallExpr{}, r2: map[string]func(){}}
+	p := &predicate{c: c, fn: fn, info: fn.Pkg.TypesInfo, x: tt.New(cfgq.Of(c.Program, fn)), helpers: map[string]*ast.CallExpr{}, r2: map[string]func(){}, folded: map[string]bool{}}
 	p.x.Prog, p.x.LoopDecisions = c.Program, true
 	for _, f := range fn.Decl.Type.Params.List {
 		for _, n := range f.Names {
@@ -181,6 +182,7 @@ func (p *predicate) classify(l tt.Lit) (string, bool, bool) {
 		for _, pair := range [][2]ast.Expr{{be.X, be.Y}, {be.Y, be.X}} {
 			if name, args := stringsCall(info, tt.Resolve(info, body, pair[0], 2)); name == "ToLower" && len(args) == 1 && p.isParam(args[0], 0) {
 				if s, ok := core.StringConst(info, pair[1]); ok && s == strings.ToLower(s) {
+					p.folded[s] = true
 					return "cmd~" + s, be.Op == token.EQL, true
 				}
 			}
@@ -191,9 +193,11 @@ func (p *predicate) classify(l tt.Lit) (string, bool, bool) {
 		switch name {
 		case "EqualFold":
 			if s, ok := core.StringConst(info, a); ok && p.isParam(b, 0) {
+				p.folded[strings.ToLower(s)] = true
 				return "cmd~" + strings.ToLower(s), true, true
 			}
 			if s, ok := core.StringConst(info, b); ok && p.isParam(a, 0) {
+				p.folded[strings.ToLower(s)] = true
 				return "cmd~" + strings.ToLower(s), true, true
 			}
 		case "HasPrefix":
@@ -423,16 +427,13 @@ func predicates(c *core.Ctx) {
 		{Name: "other-command", When: none, Out: "false", Input: "a command other than opinfo/eval/evalsha/script is never excluded by the command filter"},
 	})
 	if pc != nil {
-		n := 0
-		core.Inspect(pc.fn.Decl.Body, func(nd ast.Node) bool {
-			if e, ok := nd.(ast.Expr); ok {
-				if name, args := stringsCall(pc.info, e); name == "EqualFold" && len(args) == 2 {
-					n++
-				}
-			}
-			return true
-		})
-		c.Check("R2.matcher", "FilterCommands/EqualFold", pc.fn.Decl.Pos(), n >= 4, fmt.Sprintf("command names are compared case-insensitively (%d EqualFold tests, 4 names)", n))
+		// the classifier accepts a command-name test only in a case-insensitive spelling
+		// (EqualFold, or == on strings.ToLower); anything else made the table UNDECIDED above
+		if n := len(pc.folded); n >= 4 {
+			c.Okf("R2.matcher", "FilterCommands/EqualFold", pc.fn.Decl.Pos(), "command names are compared case-insensitively (%d names)", n)
+		} else {
+			c.Undecidedf("R2.matcher", "FilterCommands/EqualFold", pc.fn.Decl.Pos(), "only %d case-insensitive command-name tests recognised, 4 names expected", n)
+		}
 	}
 
 	// FilterKey
